@@ -383,21 +383,27 @@ def api_round(c, exe, ws, rows, cases, n_orders, cap, stats, tag):
     state; compare with L (monitor) and with the model.  Returns list of failures (case, order_ops, clause, detail)."""
     fails = []
     body = []
+    # per state: the straight read as the FIRST call on the fresh state, then one context read, then the same read again
+    # (what the iterator yields must not depend on whether a context was read before it)
     for cs in cases:
-        body += [cs.state_line(), "list 0 %d" % cap]
+        body += [cs.state_line(), "list 0 %d" % cap, "ctx", "list 0 %d" % cap]
     rc, out, lines = run_harness_api(c, exe, ws, rows, body, tag + "p1")
-    if rc != 0 or len(lines) != 2 * len(cases):
+    if rc != 0 or len(lines) != 4 * len(cases):
         stats["harness_aborts"] += 1
         # find the case that broke the run
-        k = min(len(lines) // 2, len(cases) - 1)
+        k = min(len(lines) // 4, len(cases) - 1)
         fails.append((cases[k], ["list 0 %d" % cap], "crash", out[-2500:]))
-        cases = cases[:len(lines) // 2]
-        lines = lines[:2 * len(cases)]
+        cases = cases[:len(lines) // 4]
+        lines = lines[:4 * len(cases)]
     for i, cs in enumerate(cases):
-        st = parse_api_line(lines[2 * i])
-        rd = parse_api_line(lines[2 * i + 1])
+        st = parse_api_line(lines[4 * i])
+        rd = parse_api_line(lines[4 * i + 1])
+        if st[1] is not None and lines[4 * i + 3] != lines[4 * i + 1]:
+            fails.append((cs, ["list 0 %d" % cap, "ctx", "list 0 %d" % cap], "iterator",
+                          "the straight read gives %s as the first call on the state and %s after one context read" % (
+                              lines[4 * i + 1][:120], lines[4 * i + 3][:120])))
         if st[1] is None:
-            fails.append((cs, [], "state-failed", lines[2 * i]))
+            fails.append((cs, [], "state-failed", lines[4 * i]))
             cs.L = None
             continue
         cs.hasmenu, cs.ps = st[1]
